@@ -131,7 +131,7 @@ def help_worker(task):
     return r
 
 
-def check(ctx, rep: Report):
+def _check_main(ctx, rep: Report):
     # ---- POST / AFTER
     rep.rules["C11.POST"] = "raw write/delete => invalidate_attrs(same obj, same attr) afterwards on every normal path; nothing invalidated on failing paths"
     variants = [("mutate_attr", False), ("mutate_attr", True), ("__delattr__", True)]
@@ -263,3 +263,11 @@ def check(ctx, rep: Report):
     if not ok:
         rep.violate(Violation("C11.SRC", "C11.SRC|build_attr_spec", "build_attr_spec no longer lifts __spec_class_invalidated_by__ from a default (spec_property assigned to a managed attribute)",
                               f"{b.module.relpath}:{b.node.lineno}", "spec_class.build_attr_spec"))
+
+
+def check(ctx, rep):
+    from . import metarules, shared
+    _check_main(ctx, rep)
+    shared.own_namespace_lookups(ctx, rep, "C11.NS")
+    metarules.property_rebuild_forwards(ctx, rep, "C11.SRC")
+    metarules.recursion_threads_guard(ctx, rep, "C11.TRANS")
